@@ -3,7 +3,7 @@
    StandardDeviation (running mean and variance) and RSI (Wilder averages of gain and loss). *)
 From Coq Require Import ZArith List String Ascii Bool Lia ZifyBool.
 From Hexital Require Import Base.Prelude Base.Num Model.Manager Model.Candle Model.Readings Model.Analysis
-  Model.Engine Proofs.ListProofs Proofs.EngineProofs Proofs.CausalProofs Proofs.DataSlot.
+  Model.Engine Proofs.ListProofs Proofs.EngineProofs Proofs.CausalProofs Proofs.CausalMore Proofs.AnalysisProofs Proofs.DataSlot.
 Import ListNotations.
 Local Open Scope string_scope.
 Local Open Scope list_scope.
@@ -313,5 +313,219 @@ Proof.
   reflexivity.
 Qed.
 End STDEV.
+
+(* ================================================================ RSI *)
+Section RSI.
+Variable period : Z.
+Variable input : string.
+Hypothesis K : i_kind NO I = K_RSI period input.
+Hypothesis Hkey : key = "RSI_data".
+Hypothesis Hperiod : 1 <= period.
+Hypothesis HinI : stable NO I input.
+Hypothesis HinM : stable NO M input.
+
+(* the Wilder averages written at this candle, if any *)
+Definition rsiW (a : store) (c : cd) : res (option (num NO * num NO)) :=
+  let st := a ++ [c] in
+  let i := zlen a in
+  pe <- prev_exists NO st nm i ;;
+  if pe then
+    pv <- prev_reading NO st input i ;; px <- as_num NO pv ;; x <- rnum NO st input i ;;
+    let change := nsub NO px x in
+    let gain := if nltb NO change (zn NO 0) then nmul NO (zn NO (-1)) change else fl NO 0 1 in
+    let loss := if nltb NO (zn NO 0) change then change else fl NO 0 1 in
+    pg <- prev_reading NO st (nm ++ "_data.gain")%string i ;; pgn <- as_num NO pg ;;
+    pl <- prev_reading NO st (nm ++ "_data.loss")%string i ;; pln <- as_num NO pl ;;
+    g <- divn NO (nadd NO (nmul NO pgn (zn NO (period - 1))) gain) (zn NO period) ;;
+    l <- divn NO (nadd NO (nmul NO pln (zn NO (period - 1))) loss) (zn NO period) ;;
+    Ok (Some (g, l))
+  else
+    rp <- rperiod NO st (period + 1) input i ;;
+    if rp then
+      changes <- mapM (fun j => x <- rnum NO st input j ;; y <- rnum NO st input (j - 1) ;; Ok (nsub NO x y))
+                      (zrange (i - (period - 1)) (i + 1)) ;;
+      g <- divn NO (nsum NO (filter (fun c => nltb NO (zn NO 0) c) changes)) (zn NO period) ;;
+      l <- divn NO (nsum NO (map (nabs NO) (filter (fun c => nltb NO c (zn NO 0)) changes))) (zn NO period) ;;
+      Ok (Some (g, l))
+    else Ok None.
+
+Definition rsiV (g l : num NO) : res val :=
+  if neqb NO l (zn NO 0) then Ok (vnum NO (fl NO 1000 1)) else
+  rs <- divn NO g l ;;
+  q <- divn NO (fl NO 1000 1) (nadd NO (fl NO 10 1) rs) ;;
+  Ok (vnum NO (nsub NO (fl NO 1000 1) q)).
+
+Definition rsiD (a : store) (c : cd) : res (val * option val) :=
+  w <- rsiW a c ;;
+  match w with
+  | Some (g, l) => v <- rsiV g l ;; Ok (v, Some (VDict [("gain", vnum NO g); ("loss", vnum NO l)]))
+  | None =>
+    dv <- reading NO (a ++ [c]) nmM (zlen a) ;;
+    if truthy NO dv then
+      g <- rnum NO (a ++ [c]) (nm ++ "_data.gain")%string (zlen a) ;;
+      l <- rnum NO (a ++ [c]) (nm ++ "_data.loss")%string (zlen a) ;;
+      v <- rsiV g l ;; Ok (v, None)
+    else Ok (VNone, Some VNone)
+  end.
+
+(* the write of the averages, as the model performs it *)
+Definition rsi_write f (st : store) (i : Z) : res store :=
+  pe <- prev_exists NO st nm i ;;
+  (if pe then
+     pv <- prev_reading NO st input i ;; px <- as_num NO pv ;; x <- rnum NO st input i ;;
+     let change := nsub NO px x in
+     let gain := if nltb NO change (zn NO 0) then nmul NO (zn NO (-1)) change else fl NO 0 1 in
+     let loss := if nltb NO (zn NO 0) change then change else fl NO 0 1 in
+     pg <- prev_reading NO st (nm ++ "_data.gain")%string i ;; pgn <- as_num NO pg ;;
+     pl <- prev_reading NO st (nm ++ "_data.loss")%string i ;; pln <- as_num NO pl ;;
+     g <- divn NO (nadd NO (nmul NO pgn (zn NO (period - 1))) gain) (zn NO period) ;;
+     l <- divn NO (nadd NO (nmul NO pln (zn NO (period - 1))) loss) (zn NO period) ;;
+     managed_set NO (run NO (S f)) I "RSI_data" (VDict [("gain", vnum NO g); ("loss", vnum NO l)]) i st
+   else
+     rp <- rperiod NO st (period + 1) input i ;;
+     if rp then
+       changes <- mapM (fun j => a <- rnum NO st input j ;; b <- rnum NO st input (j - 1) ;; Ok (nsub NO a b))
+                       (zrange (i - (period - 1)) (i + 1)) ;;
+       g <- divn NO (nsum NO (filter (fun c => nltb NO (zn NO 0) c) changes)) (zn NO period) ;;
+       l <- divn NO (nsum NO (map (nabs NO) (filter (fun c => nltb NO c (zn NO 0)) changes))) (zn NO period) ;;
+       managed_set NO (run NO (S f)) I "RSI_data" (VDict [("gain", vnum NO g); ("loss", vnum NO l)]) i st
+     else Ok st).
+
+Lemma rsi_calc_unfold f st i :
+  calc_reading NO (run NO (S f)) I st i =
+  (st1 <- rsi_write f st i ;;
+   dv <- reading NO st1 (nm ++ "_data")%string i ;;
+   if truthy NO dv then
+     g <- rnum NO st1 (nm ++ "_data.gain")%string i ;; l <- rnum NO st1 (nm ++ "_data.loss")%string i ;;
+     if neqb NO l (zn NO 0) then ret NO (vnum NO (fl NO 1000 1)) st1 else
+     rs <- divn NO g l ;;
+     q <- divn NO (fl NO 1000 1) (nadd NO (fl NO 10 1) rs) ;;
+     ret NO (vnum NO (nsub NO (fl NO 1000 1) q)) st1
+   else
+     st2 <- managed_set NO (run NO (S f)) I "RSI_data" VNone i st1 ;; ret NO VNone st2).
+Proof. unfold calc_reading, rsi_write. rewrite K. destruct (prev_exists NO st nm i) as [[|]|]; reflexivity. Qed.
+
+Lemma changes_mid (a rest : store) (c : cd) : 0 <= zlen a - period ->
+  mapM (fun j => x <- rnum NO (a ++ c :: rest) input j ;; y <- rnum NO (a ++ c :: rest) input (j - 1) ;; Ok (nsub NO x y))
+       (zrange (zlen a - (period - 1)) (zlen a + 1)) =
+  mapM (fun j => x <- rnum NO (a ++ [c]) input j ;; y <- rnum NO (a ++ [c]) input (j - 1) ;; Ok (nsub NO x y))
+       (zrange (zlen a - (period - 1)) (zlen a + 1)).
+Proof.
+  intros Hb. apply mapM_ext. intros j Hj. apply in_zrange in Hj.
+  assert (E1 : rnum NO (a ++ c :: rest) input j = rnum NO (a ++ [c]) input j).
+  { destruct (Z.eq_dec j (zlen a)) as [->|Hne]; [apply rnum_mid|apply rnum_back; lia]. }
+  rewrite E1. rewrite (rnum_back a rest c input (j - 1)) by lia. reflexivity.
+Qed.
+
+(* the write stage on  a ++ c :: rest *)
+Lemma rsi_write_mid f (a rest : store) (c : cd) :
+  rsi_write f (a ++ c :: rest) (zlen a) =
+  (w <- rsiW a c ;;
+   match w with
+   | Some (g, l) => Ok (a ++ setkM c (VDict [("gain", vnum NO g); ("loss", vnum NO l)]) :: rest)
+   | None => Ok (a ++ c :: rest)
+   end).
+Proof.
+  unfold rsi_write, rsiW.
+  norm a rest c. destruct (prev_exists NO (a ++ [c]) nm (zlen a)) as [[|]|]; cbn [bind]; [| |reflexivity].
+  - repeat step a rest c. rewrite <- Hkey. apply managed_set_mid.
+  - rewrite (rperiod_mid_any a rest c input (period + 1)) by lia.
+    destruct (rperiod NO (a ++ [c]) (period + 1) input (zlen a)) as [[|]|] eqn:Rp; cbn [bind]; try reflexivity.
+    apply rperiod_true_bound in Rp. rewrite (changes_mid a rest c) by lia.
+    destruct (mapM _ _) as [changes|]; cbn [bind]; [|reflexivity].
+    destruct (divn NO _ _) as [g|]; cbn [bind]; [|reflexivity].
+    destruct (divn NO _ _) as [l|]; cbn [bind]; [|reflexivity].
+    rewrite <- Hkey. apply managed_set_mid.
+Qed.
+
+Lemma rsi_shape f (a : store) (c : cd) (rest : store) : G c ->
+  calc_reading NO (run NO (S f)) I (a ++ c :: rest) (zlen a) =
+  (r <- rsiD a c ;; Ok (fst r, a ++ slotM c (snd r) :: rest)).
+Proof.
+  intros Hg. rewrite rsi_calc_unfold, rsi_write_mid. unfold rsiD.
+  destruct (rsiW a c) as [[[g l]|]|]; cbn [bind]; [| |reflexivity].
+  - (* averages written: read back *)
+    rewrite !reading_mid. rewrite rbc_data_whole by assumption. cbn [bind truthy].
+    change (nm ++ "_data.gain")%string with (nm ++ ("_data" ++ ".gain"))%string.
+    change (nm ++ "_data.loss")%string with (nm ++ ("_data" ++ ".loss"))%string.
+    rewrite (append_assoc3 nm "_data" ".gain"), (append_assoc3 nm "_data" ".loss").
+    unfold rnum. rewrite !reading_mid. rewrite !rbc_data_field by (assumption || reflexivity).
+    cbn [alist_get String.eqb Ascii.eqb Bool.eqb bind as_num numlike vnum].
+    unfold rsiV. destruct (neqb NO l (zn NO 0)); cbn [ret bind fst snd EngineProofs.slot]; [reflexivity|].
+    destruct (divn NO g l); cbn [bind]; [|reflexivity]. destruct (divn NO _ _); reflexivity.
+  - (* nothing written: whatever the helper slot holds *)
+    rewrite (reading_mid1 a rest c). destruct (reading NO (a ++ [c]) nmM (zlen a)) as [dv|]; cbn [bind]; [|reflexivity].
+    destruct (truthy NO dv).
+    + rewrite !(rnum_mid a rest c).
+      destruct (rnum NO (a ++ [c]) _ (zlen a)) as [g|]; cbn [bind]; [|reflexivity].
+      destruct (rnum NO (a ++ [c]) _ (zlen a)) as [l|]; cbn [bind]; [|reflexivity].
+      unfold rsiV. destruct (neqb NO l (zn NO 0)); cbn [ret bind fst snd EngineProofs.slot]; [reflexivity|].
+      destruct (divn NO g l); cbn [bind]; [|reflexivity]. destruct (divn NO _ _); reflexivity.
+    + rewrite <- Hkey. rewrite managed_set_mid. cbn [bind ret fst snd EngineProofs.slot]. reflexivity.
+Qed.
+
+Lemma stable_deco_rsi (d : cd) w v : reading_by_candle NO (p (setkI (slotM d w) v)) input = reading_by_candle NO (p d) input.
+Proof.
+  pose proof (HinI (slotM d w) (Some v)) as E1. cbn [EngineProofs.slot] in E1. rewrite E1. apply (HinM d w).
+Qed.
+
+Lemma rsiW_deco (a : store) (d : cd) w v : rsiW a (setkI (slotM d w) v) = rsiW a d.
+Proof.
+  unfold rsiW.
+  apply bind_ext; [apply prev_exists_any|intros pe]. destruct pe.
+  - apply bind_ext; [apply prev_reading_any|intros pv]. apply bind_ext; [reflexivity|intros px].
+    apply bind_ext; [unfold rnum; rewrite !(reading_mid NO a []); rewrite stable_deco_rsi; reflexivity|intros x].
+    apply bind_ext; [apply prev_reading_any|intros pg]. apply bind_ext; [reflexivity|intros pgn].
+    apply bind_ext; [apply prev_reading_any|intros pl]. reflexivity.
+  - assert (Erp : rperiod NO (a ++ [setkI (slotM d w) v]) (period + 1) input (zlen a) =
+                  rperiod NO (a ++ [d]) (period + 1) input (zlen a)).
+    { pose proof (rperiod_mid NO I a [] (slotM d w) (Some v) input (period + 1) HinI ltac:(lia)) as E1.
+      cbn [EngineProofs.slot] in E1. rewrite E1.
+      exact (rperiod_mid NO M a [] d w input (period + 1) HinM ltac:(lia)). }
+    rewrite Erp. destruct (rperiod NO (a ++ [d]) (period + 1) input (zlen a)) as [[|]|] eqn:Rp; cbn [bind]; try reflexivity.
+    apply rperiod_true_bound in Rp.
+    apply bind_ext; [|intros ch; reflexivity].
+    apply mapM_ext. intros j Hj. apply in_zrange in Hj.
+    assert (E1 : forall k, zlen a - period <= k <= zlen a ->
+       rnum NO (a ++ [setkI (slotM d w) v]) input k = rnum NO (a ++ [d]) input k).
+    { intros k Hk. destruct (Z.eq_dec k (zlen a)) as [->|Hne].
+      - unfold rnum. rewrite !(reading_mid NO a []). rewrite stable_deco_rsi. reflexivity.
+      - unfold rnum. rewrite !reading_app_l by lia. reflexivity. }
+    rewrite !E1 by lia. reflexivity.
+Qed.
+
+Lemma rsiV_num g l v : rsiV g l = Ok v -> exists x, v = VNum x.
+Proof.
+  unfold rsiV. destruct (neqb NO l (zn NO 0)); [intros H; inversion H; eexists; reflexivity|].
+  destruct (divn NO g l); cbn [bind]; [|discriminate]. destruct (divn NO _ _); cbn [bind]; [|discriminate].
+  intros H; inversion H; eexists; reflexivity.
+Qed.
+
+(* a fresh candle holds nothing under the helper's name *)
+Lemma fresh_reads_none (a : store) (d : cd) : fresh NO M d -> G d -> reading NO (a ++ [d]) nmM (zlen a) = Ok VNone.
+Proof.
+  intros Hf Hg. rewrite (reading_mid NO a []). destruct HplainM as [Hd Ha]. unfold reading_by_candle. rewrite Hd, Ha.
+  unfold G in Hg. rewrite Hg. unfold EngineProofs.fresh, EngineProofs.own, own_dict in Hf. cbn [i_sub dataM sub_ i_name] in Hf.
+  rewrite Hf. reflexivity.
+Qed.
+
+Lemma rsi_recomp (a : store) (d : cd) r : fresh NO M d -> G d -> rsiD a d = Ok r ->
+  is_none NO (rnd_ NO I (fst r)) = true -> rsiD a (setkI (slotM d (snd r)) (rnd_ NO I (fst r))) = Ok r.
+Proof.
+  intros Hf Hg Er Hn. unfold rsiD in *. rewrite rsiW_deco.
+  destruct (rsiW a d) as [[[g l]|]|]; cbn [bind] in *; [| |discriminate].
+  - exfalso. destruct (rsiV g l) as [v|] eqn:Ev; cbn [bind] in Er; [|discriminate].
+    inversion Er; subst r. cbn [fst] in Hn. destruct (rsiV_num g l v Ev) as [x ->]. discriminate.
+  - rewrite (fresh_reads_none a d Hf Hg) in Er. cbn [bind truthy] in Er. inversion Er; subst r. cbn [fst snd EngineProofs.slot].
+    rewrite (reading_mid NO a []).
+    assert (E : reading_by_candle NO (p (setkI (setkM d VNone) (rnd_ NO I VNone))) nmM = Ok VNone).
+    { destruct HplainM as [Hd Ha]. unfold reading_by_candle. rewrite Hd, Ha.
+      pose proof (G_pres d (Some VNone) (rnd_ NO I VNone) Hg) as Hg'. cbn [EngineProofs.slot] in Hg'. unfold G in Hg'. rewrite Hg'.
+      unfold EngineProofs.setk at 1. unfold with_own_dict. cbn [p]. rewrite Htop. cbn [subs].
+      unfold EngineProofs.setk, with_own_dict, EngineProofs.own, own_dict. cbn [p i_sub dataM sub_ subs i_name].
+      rewrite alist_get_set_same. reflexivity. }
+    rewrite E. cbn [bind truthy]. reflexivity.
+Qed.
+End RSI.
 
 End Data.
